@@ -763,10 +763,29 @@ def extract_take(repo, arg, cfg, world, log):
     if members is not None:
         bo, bc = body_range(item, kwrel, len(item))
         picked = []
+        sigonly = set()
         for name in members:
+            if name.endswith("!"):
+                name = name[:-1]; sigonly.add(name)
             (ms, mk, me) = find_item(item, bo + 1, bc, "fn " + name)
             picked.append((ms, me))
-        if opts.get("sigs"):
+        if sigonly and not opts.get("sigs"):
+            segs = []
+            for (ms, me), name in zip(picked, [m_.rstrip("!") for m_ in members]):
+                seg = item[ms:me]
+                if name in sigonly:
+                    mk = next(k for k, u in enumerate(seg) if u.kind == "id" and u.text == "fn")
+                    try:
+                        o, c2 = body_range(seg, mk, len(seg))
+                        seg = seg[:o] + [T("punct", ";", seg[o].line)]
+                    except Undecided:
+                        pass
+                segs.append(seg)
+            item = item[:bo + 1] + [u for seg in segs for u in seg] + item[bc:]
+            picked = None
+        if picked is None:
+            pass
+        elif opts.get("sigs"):
             # signatures only: each picked member's body is replaced by ';'
             segs = []
             for (ms, me) in picked:
